@@ -10,6 +10,7 @@ CONSTANTS
     JoinCollapse = FALSE
     NoLimitRaw = FALSE
     Faults = TRUE
+    PanicCommits = FALSE
     MaxTxOps = 2
 INVARIANTS
     TypeOK
